@@ -181,6 +181,142 @@ def special_character_cases(L, G, rng, n_random):
     return cases
 
 
+def judge_entry_points(ck, cs, r, inp):
+    """the written XML of a document, through every public writing path"""
+    if "file_err" in r:
+        ck.witness("C02:document:writing-to-a-path-raises", "NeuroMLWriter.write(doc, <path>) raises on a conforming document: " + r["file_err"],
+                   input=inp, observed=r["file_err"])
+        return
+    if "entry_mismatch" not in r:
+        return
+    ck.tally("writer-entry-points-compared")
+    if not r["path_lx"]["wellformed"] or (r["lx"]["valid"] and not r["path_lx"]["valid"]):
+        ck.witness("C02:writer-entry-point:path", "the file NeuroMLWriter.write(doc, <path>) leaves for a conforming document is not %s: %s" % (
+            "well-formed" if not r["path_lx"]["wellformed"] else "schema-valid", r["path_lx"]["err"]), input=inp, observed=r["path_lx"])
+    for which, what in r["entry_mismatch"]:
+        ck.witness("C02:writer-entry-point:" + which.split(",")[0].replace(" ", "-"),
+                   "a conforming document written through NeuroMLWriter.write with an %s does not give the XML written through a path: %s" % (
+                       which, what) if which.startswith("open") else
+                   "a conforming document written through %s does not give the XML written through a path: %s" % (which, what),
+                   input=inp, expected="the same bytes as NeuroMLWriter.write(doc, <path>)", observed=what)
+
+
+# ----------------------------------------------------------------------------- the public factory paths
+FACTORY_MODES = ("utils-factory-str", "utils-factory-class", "class-factory", "parent-add")
+
+
+def falsify(L, tree):
+    """replace, in place, every leaf that may legally be falsy by its falsy value: integer 0, float 0.0, the empty
+    string; returns how many leaves were replaced"""
+    n = 0
+    for node in c03.all_nodes(tree):
+        if node["cls"] not in L.ct:
+            continue
+        attrs = {a["py"]: a for a in L.all_attrs(node["cls"])}
+        for kv in node["kw"]:
+            a = attrs.get(kv[0])
+            if a is None or kv[1] is None or a["fixed"] is not None:
+                continue
+            st = L.st[a["st"]]
+            if st["enums"]:
+                continue
+            if st["prim"] == "nonNegativeInteger":
+                kv[1] = {"i": 0}
+                n += 1
+            elif st["prim"] in ("float", "double"):
+                ok = True
+                for k, v in st["facets"]:
+                    x = float(v)
+                    ok = ok and {"minInclusive": 0.0 >= x, "minExclusive": 0.0 > x, "maxInclusive": 0.0 <= x, "maxExclusive": 0.0 < x}[k]
+                if ok:
+                    kv[1] = {"f": "0.0"}
+                    n += 1
+            elif st["prim"] in ("string", "anyURI") and not st["patterns"] and a["py"] != "id":
+                kv[1] = {"s": ""}
+                n += 1
+    return n
+
+
+def factory_part(ck, L, G, order, per_type):
+    """conforming trees built through the public factory paths are the trees the constructors build (and validate, and
+    are written as the same XML): legal falsy values - 0, 0.0, "" - included deterministically"""
+    rng = ck.rng
+    root = L.S["root"][1]
+    P = lambda **kw: c03.T_("Point3DWithDiam", **{k: {"f": repr(v)} for k, v in kw.items()})  # noqa
+    fixed = [
+        ("segment 0 at the origin", c03.T_("Segment", id={"i": 0}, name=s_("soma"), proximal={"o": P(x=0.0, y=0.0, z=0.0, diameter=10.0)},
+                                          distal={"o": P(x=0.0, y=0.0, z=0.0, diameter=10.0)})),
+        ("point at the origin", P(x=0.0, y=0.0, z=0.0, diameter=10.0)),
+        ("instance 0 at the origin", c03.T_("Instance", id={"i": 0}, i={"i": 0}, j={"i": 0}, k={"i": 0},
+                                           location={"o": c03.T_("Location", x={"f": "0.0"}, y={"f": "0.0"}, z={"f": "0.0"})})),
+        ("empty population", c03.T_("Population", id=s_("p"), component=s_("c"), size={"i": 0})),
+        ("connection between cells 0", c03.T_("ConnectionWD", id={"i": 0}, pre_cell_id=s_("../p/0/c"), post_cell_id=s_("../p/0/c"),
+                                              pre_segment_id={"i": 0}, post_segment_id={"i": 0}, pre_fraction_along={"f": "0.0"},
+                                              post_fraction_along={"f": "0.0"}, weight={"f": "0.0"}, delay=s_("0ms"))),
+        ("property with empty value", c03.T_("Property", tag=s_(""), value=s_(""))),
+        ("segment parent 0", c03.T_("SegmentParent", segments={"i": 0}, fraction_along={"f": "0.0"}))]
+    base = [{"tree": t, "tag": "probe_" + t["cls"], "doc": False, "type": t["cls"], "role": "factory-fixed:" + label, "falsy": -1}
+            for label, t in fixed if t["cls"] in L.ct]
+    for c in L.T.order:
+        for j in range(per_type):
+            t = G.tree(c, 1 if j == 0 else 2, rich=True, force={"include": 0} if c == root else None)
+            nf = falsify(L, t) if j % 2 == 0 else 0
+            base.append({"tree": t, "tag": "probe_" + c, "doc": False, "type": c, "role": "factory:" + ("falsy-values" if nf else "random-values"), "falsy": nf})
+    cases = []
+    for b in base:
+        for m in ("ctor",) + FACTORY_MODES:
+            cases.append(dict(b, build=m))
+    res = []
+    for i in range(0, len(cases), 1000):
+        res += ck.impl("c02_impl.py", {"order": order, "cases": cases[i:i + 1000], "want": ["rec", "text"]}, timeout=2400)["results"]
+    k = 1 + len(FACTORY_MODES)
+    for i in range(0, len(cases), k):
+        ref = res[i]
+        cs = cases[i]
+        if "obj_err" in ref or "text_err" in ref or ref.get("rec", {}).get("raised") is not None or not ref.get("lx", {}).get("valid"):
+            ck.tally("factory:skipped:constructor-built-tree-not-accepted")     # (the main part reports those)
+            continue
+        ck.tally("factory:" + cs["role"].split(":")[1] if cs["role"].startswith("factory:") else "factory:fixed")
+        for j, m in enumerate(FACTORY_MODES):
+            r = res[i + 1 + j]
+            ck.tally("factory-path:" + m)
+            ck.count(1, nontrivial_key=("factory", m, json.dumps(ref["obj"], sort_keys=True)) if cs["falsy"] else None)
+            inp = {"tree": cs["tree"], "tag": cs["tag"], "doc": False, "type": cs["type"], "role": cs["role"], "build": m}
+            if "obj_err" in r:
+                ck.witness("C02:factory-path-rejects-conforming-values:" + m,
+                           "building a conforming %s (the constructor-built tree passes validate and is written as valid XML) through %s raises %s" % (
+                               cs["type"], m, r["obj_err"]), input=inp, expected="the tree the constructors build", observed=r["obj_err"])
+            elif r["obj"] != ref["obj"]:
+                diff = tree_diff(ref["obj"], r["obj"])
+                ck.witness("C02:factory-path-builds-another-tree:" + m,
+                           "a conforming %s built through %s is not the tree the constructors build from the same values: %s; validate: %s; "
+                           "libxml2 on its XML: %s" % (cs["type"], m, diff, r.get("rec", {}).get("raised"), r.get("lx", {}).get("err")),
+                           input=inp, expected="the tree the constructors build", observed=diff)
+            elif r.get("rec", {}).get("raised") is not None or r.get("text") != ref.get("text"):
+                ck.witness("C02:factory-path-tree-behaves-differently:" + m,
+                           "a conforming %s built through %s dumps like the constructor-built tree but validate says %s / the XML %s" % (
+                               cs["type"], m, r.get("rec", {}).get("raised"), "is the same" if r.get("text") == ref.get("text") else "differs"),
+                           input=inp)
+
+
+def tree_diff(a, b, where=""):
+    """first difference of two dumped trees, as text"""
+    if a["cls"] != b["cls"]:
+        return "%s: class %s vs %s" % (where or "/", a["cls"], b["cls"])
+    for (n, x), (_, y) in zip(a["fields"], b["fields"]):
+        if x == y:
+            continue
+        w = "%s/%s.%s" % (where, a["cls"], n)
+        if x and y and "o" in x and "o" in y:
+            return tree_diff(x["o"], y["o"], w)
+        if x and y and "l" in x and "l" in y and len(x["l"]) == len(y["l"]):
+            for i, (p, q) in enumerate(zip(x["l"], y["l"])):
+                if p != q:
+                    return tree_diff(p, q, "%s[%d]" % (w, i))
+        return "%s: %s vs %s" % (w, json.dumps(x)[:80], json.dumps(y)[:80])
+    return "?"
+
+
 def writer_history_part(ck, L, G, n_docs):
     """the writer's output for a document is a function of the document: writes in one process, failing writes in between"""
     rng = ck.rng
@@ -457,6 +593,8 @@ def run(ck):
             ck.witness(K_ORDER if pairs else "C02:%s:written-xml-invalid" % cs["type"],
                        "the XML written for a conforming tree is rejected by libxml2: %s" % r["lx"]["err"], input=inp,
                        expected="schema-valid", observed=r["lx"]["err"])
+        if cs["doc"]:
+            judge_entry_points(ck, cs, r, inp)
         has_inc = any(k == "includes" and v and v.get("l") for k, v in cs["tree"]["kw"])   # is_valid_neuroml2 reads included files
         if cs["doc"] and not has_inc and r.get("file_valid") is not True and r["lx"]["valid"]:
             ck.witness("C02:document:is_valid_neuroml2-%s" % r.get("file_valid"),
@@ -485,6 +623,7 @@ def run(ck):
     xsd_correspondence(ck, xcases)
     conforms_correspondence(ck, ccases)
     history_part(ck, L, G, order, ck.n(60, 800))
+    factory_part(ck, L, G, order, ck.n(1, 4))
     writer_history_part(ck, L, G, ck.n(2, 12))
     # the model of validate on the conforming trees too
     c03.correspondence(ck, cases[:ck.n(200, 1500)], [dict(r, nonrec=r.get("nonrec", {"raised": None, "msgs": []})) for r in res[:ck.n(200, 1500)]],
@@ -517,7 +656,20 @@ def replay(ck, data):
         bad = any(s["step"].startswith("restored") and (s["validate(recursive=True)"] or s["validate()"] or s["component.validate()"])
                   for s in steps)
         return 1 if bad else 0
+    if inp.get("build"):
+        ref, r = ck.impl("c02_impl.py", {"order": order, "cases": [dict(inp, build="ctor"), inp], "want": ["rec", "text"]})["results"]
+        same = "obj" in r and r["obj"] == ref.get("obj") and r.get("text") == ref.get("text") and r.get("rec", {}).get("raised") is None
+        print(json.dumps({"stored": {k: data.get(k) for k in ("key", "what")}, "built through": inp["build"],
+                          "now": {"raises": r.get("obj_err"), "same tree as the constructors build": same,
+                                  "difference": tree_diff(ref["obj"], r["obj"]) if "obj" in r and "obj" in ref and r["obj"] != ref["obj"] else None,
+                                  "validate(recursive=True)": r.get("rec"), "libxml2": r.get("lx"), "xml": (r.get("text") or "")[:1200],
+                                  "xml of the constructor-built tree": (ref.get("text") or "")[:1200]}}, indent=1)[:6000])
+        return 0 if same else 1
     r = ck.impl("c02_impl.py", {"order": order, "cases": [inp], "want": ["rec", "text", "file"]})["results"][0]
+    if r.get("entry_mismatch") or r.get("path_lx", {}).get("wellformed") is False:
+        print(json.dumps({"stored": {k: data.get(k) for k in ("key", "what")},
+                          "now": {"writer entry points that differ from the path-written file": r.get("entry_mismatch"), "path-written file": r.get("path_lx")}}, indent=1))
+        return 1
     print(json.dumps({"stored": {k: data.get(k) for k in ("key", "what", "expected", "observed")},
                       "now": {"validate(recursive=True)": r.get("rec"), "libxml2": r.get("lx"),
                               "is_valid_neuroml2": r.get("file_valid"), "xml": (r.get("text") or "")[:1500]}}, indent=1)[:6000])
